@@ -33,14 +33,44 @@ def run_check(prop, root):
     return p.returncode, finds, err[:300]
 
 
-def scratch(patch):
+# corpus patches were written against the tree of their time; when a later `fix:` commit touched the same lines they are
+# evaluated on the tree they were written for (findings are compared with the baseline of THAT tree)
+OLDER_BASES = ["9c46f5c"]
+
+
+def tree_of(base):
     tmp = tempfile.mkdtemp(prefix="verif_rg_")
-    shutil.copytree("/repo/pddl_plus_parser", os.path.join(tmp, "pddl_plus_parser"))
-    r = subprocess.run(["git", "apply", "--whitespace=nowarn", patch], cwd=tmp, capture_output=True, text=True)
-    if r.returncode:
+    if base == "HEAD":
+        shutil.copytree("/repo/pddl_plus_parser", os.path.join(tmp, "pddl_plus_parser"))
+    else:
+        ar = subprocess.run(["git", "-C", "/repo", "archive", base, "pddl_plus_parser"], capture_output=True, check=True)
+        subprocess.run(["tar", "-x", "-C", tmp], input=ar.stdout, check=True)
+    return tmp
+
+
+def scratch(patch):
+    err = ""
+    for base in ["HEAD"] + OLDER_BASES:
+        tmp = tree_of(base)
+        r = subprocess.run(["git", "apply", "--whitespace=nowarn", patch], cwd=tmp, capture_output=True, text=True)
+        if r.returncode == 0:
+            return tmp, base
+        err = r.stderr[:200]
         shutil.rmtree(tmp, ignore_errors=True)
-        return None, r.stderr[:200]
-    return tmp, None
+    return None, err
+
+
+_base_cache = {}
+
+
+def baseline_of(base):
+    if base not in _base_cache:
+        tmp = tree_of(base)
+        try:
+            _base_cache[base] = {p: run_check(p, tmp)[1] for p in ALL}
+        finally:
+            shutil.rmtree(tmp, ignore_errors=True)
+    return _base_cache[base]
 
 
 def job(args):
@@ -48,6 +78,8 @@ def job(args):
     tmp, err = scratch(patch)
     if tmp is None:
         return name, "PATCH-FAILS", err
+    if err != "HEAD":
+        baseline = {p: (baseline_of(err)[p] if p in props else baseline[p]) for p in baseline}
     try:
         msgs = []
         status = "ok"
